@@ -7,3 +7,9 @@ import (
 type Templater interface {
 	Apply(request *gun.RequestParts, variables map[string]any, scenarioName, stepName string) error
 }
+
+// templateKey identifies a cached template: joining the names into one string would let
+// different steps (or a header called like a request part) share a cache entry.
+type templateKey struct {
+	scenario, step, part, key string
+}
